@@ -1,0 +1,2 @@
+//! Verification hooks (feature `llg_verif`): read-only re-exports of internal
+//! functions for the external verification harness. No behaviour lives here.
